@@ -74,19 +74,19 @@ func init() {
 	props["C01"] = propInfo{Engine: "stepsim", Level: "exploration", Rule: fmt.Sprintf(stepRule, "at least two step commands were executed; a share of the runs is the iofault variant: a third of the steps carry a script, and a seeded share (1 in 2..20) of the agent's own operations on step log files, handler log files and script files fails (ENOSPC, EIO, EMFILE; half of the failing writes are short writes; also the pipe of a step that captures its output) — order, attempt and outcome clauses are then judged from the step processes and final labels, and only the step or handler whose file was hit may be reported failed or not run"), MustProbes: []string{"run_with_file_fault"}, QuickS: 20, ThoroughS: 600}
 	props["C02"] = propInfo{Engine: "stepsim", Level: "exploration", Rule: fmt.Sprintf(stepRule, "at least two step commands were executed; a third of the runs is the iofault variant (failing operations on the agent's log, handler-log and script files), judged by the containment clause alone: no step is executed downstream of a dependency that is finally failed without continueOn.failure, canceled, or skipped without continueOn.skipped; a sixth of the retried steps of that variant name a working directory that does not exist: every attempt fails while the executor is created, the step must use up its retries and end failed"), MustProbes: []string{"run_with_file_fault", "missing_dir_step_launched"}, QuickS: 20, ThoroughS: 600}
 	props["C03"] = propInfo{Engine: "stepsim", Level: "exploration", Rule: fmt.Sprintf(stepRule, "at least two step commands were executed, or a dry-run of a generated DAG; a third of the runs are stopped (at a seeded scheduler step or fake time) or hit the DAG timeout, and a quarter of the scheduling runs have slow history writes (fault slow_op); a share of the runs is the iofault variant: a third of the steps carry a script, and a seeded share (1 in 2..20) of the agent's own operations on step log files, handler log files and script files fails (ENOSPC, EIO, EMFILE; half of the failing writes are short writes; also the pipe of a step that captures its output) — order, attempt and outcome clauses are then judged from the step processes and final labels, and only the step or handler whose file was hit may be reported failed or not run; a sixth of the retried steps of that variant name a working directory that does not exist: every attempt fails while the executor is created, the step must use up its retries and end failed"), MustProbes: []string{"run_with_file_fault", "missing_dir_step_launched"}, QuickS: 20, ThoroughS: 600}
-	props["C04"] = propInfo{Engine: "stepsim", Level: "exploration", Rule: fmt.Sprintf(stepRule, "handlers configured, a stop injected (at a seeded scheduler step or at a seeded fake time), or a DAG precondition scripted; a fifth of the steps capture an output variable; expected outcomes are grounded in the exit statuses of the step processes; a share of the runs is the iofault variant: a third of the steps carry a script, and a seeded share (1 in 2..20) of the agent's own operations on step log files, handler log files and script files fails (ENOSPC, EIO, EMFILE; half of the failing writes are short writes; also the pipe of a step that captures its output) — order, attempt and outcome clauses are then judged from the step processes and final labels, and only the step or handler whose file was hit may be reported failed or not run"), MustProbes: []string{"exit_handler_ran", "stop_after_last_step", "run_with_file_fault"}, QuickS: 20, ThoroughS: 600}
+	props["C04"] = propInfo{Engine: "stepsim", Level: "exploration", Rule: fmt.Sprintf(stepRule, "handlers configured, a stop injected (at a seeded scheduler step or at a seeded fake time), or a DAG precondition scripted; a fifth of the steps capture an output variable; expected outcomes are grounded in the exit statuses of the step processes; a share of the runs is the iofault variant: a third of the steps carry a script, and a seeded share (1 in 2..20) of the agent's own operations on step log files, handler log files and script files fails (ENOSPC, EIO, EMFILE; half of the failing writes are short writes; also the pipe of a step that captures its output) — order, attempt and outcome clauses are then judged from the step processes and final labels, and only the step or handler whose file was hit may be reported failed or not run"), MustProbes: []string{"exit_handler_ran", "stop_after_last_step", "run_with_file_fault", "recorded_log_had_failed_write"}, QuickS: 20, ThoroughS: 600}
 	props["C05"] = propInfo{Engine: "stepsim", Level: "exploration", Rule: fmt.Sprintf(stepRule, "the stop (socket /stop or SIGTERM at a seeded scheduler step) took effect while the run was alive, or the DAG timeout elapsed with steps running"), MustProbes: []string{"stop_with_live_children", "ignoring_child_at_stop", "repeat_alive_at_stop", "timeout_elapsed", "signal_on_stop_delivered", "step_left_background_process"}, QuickS: 25, ThoroughS: 600}
 	props["C12"] = propInfo{Engine: "stepsim", Level: "exploration", Rule: "one run = a generated DAG of 1-3 steps with a subset of {stdout file, stderr file, output variable}, retries 0-2, scripted byte patterns on stdout/stderr (sizes around 4 KiB / 64 KiB boundaries, seeded chunking, interleaving), exec-style children (bytes through os/exec-like pipes and copy goroutines) or a direct-write executor; files are compared byte-exactly after the run; a quarter of the runs are stopped, a third of those exactly when the agent opens the log file of a step's second attempt. distinct = distinct schedule signature; non-trivial = some step printed at least one byte", MustProbes: []string{"cfg_retry+stdout", "cfg_stderr+direct", "cfg_plain"}, QuickS: 20, ThoroughS: 600}
-	props["C06"] = propInfo{Engine: "histsim", Level: "exploration", Rule: "one run = a generated sequence of 3-20 (thorough 3-42) operations (start/write/close-with-compaction/update/rename/remove-old/remove-all/sleep) over 2-3 DAG names drawn from a grammar with spaces, dots, glob metacharacters, shared prefixes, the compaction suffix and timestamp look-alikes, run against the real jsondb store on the simulated disk and fake clock, with the host's time zone drawn per run (UTC or +1 h … +14 h) (starts in the same second/minute, either side of midnight, days apart; status lines up to 140 KB); after every operation lookup-by-id, latest and recent(1,3,100) for every DAG are compared with HistoryModel through a long-lived cached instance and a fresh one. A quarter of the runs are a race batch: 6-15 rounds of 2-3 back-to-back writes to one run's record (edits through another instance, edits through the same long-lived instance as in the API server, or the status lines of a run in progress) with a tight poller on the cached instance; after every round lookup, recent(1) and latest of the cached instance must show the last status recorded. A fifth are the diskfull variant: the same kind of sequence while a seeded share (1 in 2..9) of the writes to history records fails (ENOSPC/EIO) after 0, 1, half or all but one byte; an operation that reported an error has acknowledged nothing, and every query must return, for every run, a status between the last acknowledged and the last attempted one. distinct = distinct schedule signature; non-trivial = at least two runs were recorded (diskfull: a write failed and a run has acknowledged data)", MustProbes: []string{"race_round", "race_round_shared"}, QuickS: 20, ThoroughS: 600}
+	props["C06"] = propInfo{Engine: "histsim", Level: "exploration", Rule: "one run = a generated sequence of 3-20 (thorough 3-42) operations (start/write/close-with-compaction/update/rename/remove-old/remove-all/sleep) over 2-3 DAG names drawn from a grammar with spaces, dots, glob metacharacters, shared prefixes, the compaction suffix and timestamp look-alikes, run against the real jsondb store on the simulated disk and fake clock, with the host's time zone drawn per run (UTC or +1 h … +14 h) (starts in the same second/minute, either side of midnight, days apart; status lines up to 140 KB); after every operation lookup-by-id, latest and recent(1,3,100) for every DAG are compared with HistoryModel through a long-lived cached instance and a fresh one. A quarter of the runs are a race batch: 6-15 rounds of 2-3 back-to-back writes to one run's record (edits through another instance, edits through the same long-lived instance as in the API server, or the status lines of a run in progress) with a tight poller on the cached instance; after every round lookup, recent(1) and latest of the cached instance must show the last status recorded. A fifth are the diskfull variant: the same kind of sequence while a seeded share (1 in 2..9) of the writes to history records fails (ENOSPC/EIO) after 0, 1, half or all but one byte; an operation that reported an error has acknowledged nothing, and every query must return, for every run, a status between the last acknowledged and the last attempted one. distinct = distinct schedule signature; non-trivial = at least two runs were recorded (diskfull: a write failed and a run has acknowledged data)", MustProbes: []string{"race_round", "race_round_shared", "run_ended_after_its_record_was_removed"}, QuickS: 20, ThoroughS: 600}
 	props["C07"] = propInfo{Engine: "histsim", Level: "fault_enumeration", Rule: "one scenario = a small prior history plus one victim operation (a whole run with compaction, an update, a rename or a retention clean-up); pass 1 counts the victim's simulated system calls, then the same scenario is re-run once per crash point: kill before / after the k-th system call, or inside a write with a torn prefix of 0, 1, half or all-but-one byte (quick: 6 seeded points per scenario; thorough: every point); in half of the scenarios whose victim records a run or an update the long-lived cached instance keeps polling while the victim runs. After the kill the surviving disk is queried through a cached and a fresh store instance; then a new process records a manual status update of the interrupted run (and of one other run), which once acknowledged must be what lookup, latest and recent return, whatever the killed process left at the end of the record. A quarter of the scenarios instead run a concurrent reader against the un-killed victim. evaluations = simulated runs (fault-free pass + crash passes); distinct = distinct schedule signature of scenarios in which a crash landed", MustProbes: []string{"crash_landed", "concurrent_query_rounds", "update_after_crash_acknowledged", "latest_says_no_data_after_crash"}, QuickS: 20, ThoroughS: 600}
 	props["C08"] = propInfo{Engine: "agentsim", Level: "exploration", Rule: fmt.Sprintf("one run = a generated DAG executed through the real CLI closures (cmd start/retry/stop) as simulated processes over the simulated disk, sockets and process table, with scripted step children; %s. distinct = distinct schedule signature; non-trivial = %s", "an observer process polls the real client (GetLatestStatus/GetCurrentStatus) at seeded instants during and after the run and every answer is checked against the ground-truth step intervals (invoke/return stamps); in half of the runs the agent is killed (before/after a seeded system-call index, inside the end-of-run compaction of its record, or after a handler command has started; a third of those runs have an earlier successful run of the DAG) and afterwards the status, a new start and the daemon's start guard are checked; a third of the status scenarios inject one transient accept(2) error (EMFILE) on the run's status socket, a sixth have a step with a 76 KB inline script (a status document over 64 KiB), and a quarter are quiet (no injected stalls or latencies, retry intervals of 4-5 s): there a status query that runs into the 3 s client timeout while the run's socket is listening is a violation", "at least one command executed and at least two observations were made"), MustProbes: []string{"observed_while_listening", "observed_after_exit", "killed_with_steps_pending", "killed_during_compaction", "killed_during_handlers", "crash_with_prior_successful_run", "restart_after_crash", "daemon_guard_after_crash"}, QuickS: 20, ThoroughS: 600}
 	props["C16"] = propInfo{Engine: "agentsim", Level: "exploration", Rule: fmt.Sprintf("one run = a generated DAG executed through the real CLI closures (cmd start/retry/stop) as simulated processes over the simulated disk, sockets and process table, with scripted step children; %s. distinct = distinct schedule signature; non-trivial = %s", "two (thorough: up to three) starts of the same file — the competitor is a start or, in a third of the runs, a retry of an earlier run — the second released at a seeded scheduler step of the first's life or at the same moment; a third of the runs inject one transient accept(2) error on the active run's status socket; execution spans of the starts must not overlap, a refused start exits non-zero without executing or recording anything, the active run's endpoint keeps answering with its own request id", "the lifetimes of two start processes overlapped"), MustProbes: []string{"starts_overlapped", "start_refused", "survivor_probed", "probe_bind_window_hit", "competitor_is_retry"}, QuickS: 20, ThoroughS: 600}
 	props["C10"] = propInfo{Engine: "agentsim", Level: "exploration", Rule: fmt.Sprintf("one run = a generated DAG executed through the real CLI closures (cmd start/retry/stop) as simulated processes over the simulated disk, sockets and process table, with scripted step children; %s; in a quarter of the scenarios the DAG also holds the record of another run that sorts first in the retry's lookup and is gone (ENOENT) or unreadable (EIO) when the retry opens it (fault history_file_vanishes). distinct = distinct schedule signature; non-trivial = %s", "a first run ended naturally, by `stop` at a seeded step, or by a kill at a seeded system call (leaving running / not-started nodes recorded), optionally the definition is edited, then `retry --req=<id>` runs as a new process under fresh outcome scripts; kept steps must not execute and must be copied unchanged, unfinished steps and everything downstream re-run in dependency order, the retry terminates and is a new record", "a retry process ran"), MustProbes: []string{"first_run_killed", "recorded_running_node", "recorded_not_started_node", "step_in_retry_set"}, QuickS: 20, ThoroughS: 600}
-	props["C11"] = propInfo{Engine: "agentsim", Level: "exploration", Rule: "one run = a generated DAG (1-2 producers with output:, a consumer before and after a failing step, a late producer downstream of it, optionally a two-hop consumer; exit handler always, success/failure handlers at random; half of the consumers also reference the values in their command line) started through the real CLI closure with parameters from a structural grammar (0-3 positional or NAME= items; bare, quoted with spaces, '=', escaped quotes, UTF-8) given with -p or as DAG defaults; then 0-2 `retry --req` processes (the failing step fails again except possibly in the last) and optionally a `restart`, each a new simulated process that reads the previous record; in a third of the lineages the DAG's env: gives some of the captured output names a default value, which every consumer after the producer must see replaced; in a third of the lineages half of the writes of a compacted record at the end of a run fail with ENOSPC (fault compaction_write_error). Captured output texts are salted per execution and cover padding, newlines, quotes, '$', backslashes, UTF-8, 4 KiB and 64 KiB boundaries. Every child's environment and argv (as assembled by the real command executor) is compared with the given parameter values and with the trimmed text of the most recent execution of each upstream producer in the run lineage. distinct = distinct schedule signature; non-trivial = more than two commands executed", MustProbes: []string{"process_retry", "process_restart", "output_seen_recorded-run", "output_seen_by_handler", "output_over_64k_seen", "argv_checked", "params_checked_retry", "params_checked_restart"}, QuickS: 20, ThoroughS: 600}
+	props["C11"] = propInfo{Engine: "agentsim", Level: "exploration", Rule: "one run = a generated DAG (1-2 producers with output:, a consumer before and after a failing step, a late producer downstream of it, optionally a two-hop consumer; exit handler always, success/failure handlers at random; half of the consumers also reference the values in their command line) started through the real CLI closure with parameters from a structural grammar (0-3 positional or NAME= items; bare, quoted with spaces, '=', escaped quotes, UTF-8) given with -p or as DAG defaults; then 0-2 `retry --req` processes (the failing step fails again except possibly in the last) and optionally a `restart`, each a new simulated process that reads the previous record; in a third of the lineages the DAG's env: gives some of the captured output names a default value, which every consumer after the producer must see replaced; in a third of the lineages half of the writes of a compacted record at the end of a run fail with ENOSPC (fault compaction_write_error). Captured output texts are salted per execution and cover padding, newlines, quotes, '$', backslashes, UTF-8, 4 KiB and 64 KiB boundaries. Every child's environment and argv (as assembled by the real command executor) is compared with the given parameter values and with the trimmed text of the most recent execution of each upstream producer in the run lineage. distinct = distinct schedule signature; non-trivial = more than two commands executed", MustProbes: []string{"process_retry", "process_restart", "output_seen_recorded-run", "output_seen_by_handler", "output_over_64k_seen", "argv_checked", "params_checked_retry", "params_checked_restart", "producer_succeeds_at_second_attempt"}, QuickS: 20, ThoroughS: 600}
 	props["C20"] = propInfo{Engine: "apisim", Level: "exploration", Rule: "one run = 1-2 generated DAGs (1-3 steps of 50 ms - 9 s) and a seeded sequence of 6-14 (thorough 6-25) events issued by a server process to the real post-action operation handler: start (with parameters from the C11 grammar), stop, retry, suspend, mark-success, mark-failed (request id: latest / older / bogus / missing / of the other DAG; step: valid / bogus / missing), save with an invalid text, rename without a name, unknown action, missing action, unknown DAG id, interleaved with waits and kills of the DAG's agent process; in a third of the runs fault no_space makes half of the server's own writes to history records fail with ENOSPC. Agents are real simulated processes spawned by the real client (StartAsync/Retry -> exec -> cmd start/retry closures), so the states never-run / running / finished / failed / canceled / crashed are reached for real. Every answer is judged against the ground-truth state of the DAG's processes over the call's invoke..return interval (running = socket listening throughout; idle = no agent alive and no accepted start pending; otherwise either answer is accepted), and the dumps of history, definition and flag files before and after each call are compared (files of runs in progress excepted); after a refused status edit the addressed run as the server itself shows it (lookup by request id through the real client) must be unchanged too. The event kill-torn makes the agent of the addressed DAG die inside its next write to its record (fault torn_write): the crashed run's record ends in an incomplete line, and later edits of it are judged like any other. distinct = distinct schedule signature; non-trivial = at least three API calls and one agent process", MustProbes: []string{"action_start_running", "action_start_idle", "action_stop_idle", "action_stop_running", "action_mark-failed_running", "edit_accepted", "agent_killed", "start_params_checked", "malformed_unknown-request-id", "malformed_unknown-step", "edit_refused_after_write_fault", "torn_kill_armed"}, QuickS: 20, ThoroughS: 600}
 	props["C09"] = propInfo{Engine: "cronsim", Level: "exploration", Rule: "one run = the real `blackdagger scheduler` daemon as a simulated process over 8-70 (thorough 15-400) simulated minutes from a seeded epoch (month ends, 29 Feb, year end, hour boundaries, arbitrary second of the minute), 1-3 DAG files whose schedules come from the 5-field cron grammar (lists, ranges, steps, names, dom/dow interplay; string, list and start/stop/restart map forms) with steps of 1-400 s executed by real agents the daemon spawns through the real client, plus seeded operator and fault events: add / edit / remove a DAG file, suspend / resume, malformed files (bad YAML, bad cron, type-confused schedule) — in half of the runs half of the additions and edits arrive by rename from a staging directory — daemon kill + restart after 0.1-200 s (often just after a minute boundary), daemon freeze for 2-250 s (late and bunched ticks), agent kill, manual start; in a fifth of the runs inotify is unavailable and the daemon's polling fallback watches the directory; in a quarter fault flag_stat_error makes a third of the daemon's look-ups of a suspend flag that does not exist fail with EACCES/EIO; in a third fault watcher_error makes the notification backend report an error on its Errors channel before one in three events (no event lost); a third of the DAGs end within milliseconds of a later tick, and fault slow_op then delays the removal of the run's uncompacted record to a seeded 0-600 µs after the minute boundary. Oracle per DAG, daemon life and evaluated minute (normal tick, start-up minute, ticks delivered after a freeze), from outside only: the `start`/`restart` processes the daemon spawned within 5 s of the evaluation, compared with an independent cron matcher (cross-checked against robfig/cron) and the ground-truth file, flag and process timelines; a start is required only when every condition is definite, forbidden only when one is definitely false, otherwise either is accepted. distinct = distinct schedule signature; non-trivial = at least one evaluation required a start", MustProbes: []string{"evaluation_required_start", "evaluation_startup", "evaluation_after-freeze", "start_issued", "bad_file_added", "restart_issued", "run_stopped_by_schedule", "evaluation_while_previous_run_shuts_down"}, QuickS: 25, ThoroughS: 600}
 	props["C15"] = propInfo{Engine: "stepsim", Level: "exploration", Rule: fmt.Sprintf(stepRule, "at least two step commands overlapped in time; in a quarter of the limited scheduling runs the limit is declared in the installation's base configuration, which in half of those cannot be read when the run starts (fault base_config_unreadable: the run must be refused); a quarter of the runs is the iofault variant (failing operations on the agent's log, handler-log and script files), where the number of steps executing at once (a process alive, or the retry wait after a failed attempt, including an attempt that failed before its process existed because no pipe could be had for its captured output or because its working directory does not exist) is compared with the limit"), MustProbes: []string{"limit_reached", "unlimited_overlap", "run_with_file_fault", "retry_wait_after_setup_failure"}, QuickS: 20, ThoroughS: 600}
-	props["C18"] = propInfo{Engine: "storesim", Level: "fault_enumeration", Rule: "sequential batch: one run = a generated sequence of 4-16 (thorough 4-40) operations create / save (valid, 256 KiB, with schedule, bad YAML, unknown key, step without command or name, bad cron, steps not a list, empty) / rename / delete / list / recorded run / status update / sleep over 2-4 prefix-related names (with spaces, dashes, underscores), issued through the real API operation handlers (frontend/dag) -> client -> local DAG store + jsondb on the simulated disk, alternately through a long-lived cached server and a fresh server process; after every operation the bytes of every definition file and the history of every DAG (request ids, newest first, last status of each) are compared with a reference model; in a third of the sequences half of the server's removals of history records fail (fault unlink_error: EIO/EPERM) around a delete of a DAG holding several runs — a delete that could not remove everything must be refused and keep the definition; in a quarter the look-up of the existing target of a create or rename fails with EIO (fault stat_error), and the target must be left alone. crash batch: a short prior sequence, then one save by a server process; pass 1 counts its simulated system calls, then the scenario is re-run once per crash point (kill before / after the k-th call, or inside a write with a torn prefix; quick: 6 seeded points, thorough: all) and the file must hold entirely the old or entirely the new text and every other DAG and history must be untouched.; a third of the recorded runs are written by a process whose time zone is ahead of the server's (the record name carries that wall clock). evaluations = simulated runs; distinct = distinct schedule signature; non-trivial = a DAG existed (sequential) or a crash landed (crash batch)", MustProbes: []string{"crash_landed", "rename_onto_existing", "rename_with_history", "delete_with_history", "create_on_existing", "save_invalid_text", "run_recorded_in_a_zone_ahead"}, QuickS: 20, ThoroughS: 600}
+	props["C18"] = propInfo{Engine: "storesim", Level: "fault_enumeration", Rule: "sequential batch: one run = a generated sequence of 4-16 (thorough 4-40) operations create / save (valid, 256 KiB, with schedule, bad YAML, unknown key, step without command or name, bad cron, steps not a list, empty) / rename / delete / list / recorded run / status update / sleep over 2-4 prefix-related names (with spaces, dashes, underscores), issued through the real API operation handlers (frontend/dag) -> client -> local DAG store + jsondb on the simulated disk, alternately through a long-lived cached server and a fresh server process; after every operation the bytes of every definition file and the history of every DAG (request ids, newest first, last status of each) are compared with a reference model; in a third of the sequences half of the server's removals of history records fail (fault unlink_error: EIO/EPERM) around a delete of a DAG holding several runs — a delete that could not remove everything must be refused and keep the definition; in a quarter the look-up of the existing target of a create or rename fails with EIO (fault stat_error), and the target must be left alone. crash batch: a short prior sequence, then one save by a server process; pass 1 counts its simulated system calls, then the scenario is re-run once per crash point (kill before / after the k-th call, or inside a write with a torn prefix; quick: 6 seeded points, thorough: all) and the file must hold entirely the old or entirely the new text and every other DAG and history must be untouched.; a third of the recorded runs are written by a process whose time zone is ahead of the server's (the record name carries that wall clock). evaluations = simulated runs; distinct = distinct schedule signature; non-trivial = a DAG existed (sequential) or a crash landed (crash batch)", MustProbes: []string{"crash_landed", "rename_onto_existing", "rename_with_history", "delete_with_history", "create_on_existing", "save_invalid_text", "run_recorded_in_a_zone_ahead", "run_in_progress_over_next_op"}, QuickS: 20, ThoroughS: 600}
 }
 
 func die(code int, format string, a ...any) {
